@@ -67,6 +67,12 @@ type Uint8 struct{ U uint8 }
 
 type Float64 struct{ F float64 }
 
+type Panic = func(v any)
+
+type Recover = func() any
+
+type Print = func(args ...any)
+
 type LI interface{ LM(x int) string }
 
 type li interface{ lm() }
@@ -395,6 +401,9 @@ def catalogue(g):
         # unnamed parameters: the derived variable name is the de-capitalised type name, i.e. a predeclared identifier used elsewhere in the signature
         add("shape.local-named-like-predeclared." + tn, ["P(%s, []%s) map[%s]bool" % (tn, pre, pre) if pre not in ("any", "error", "bool") else "P(%s, []%s) []%s" % (tn, pre, pre),
                                                          "Q(*%s, ...%s) (%s, error)" % (tn, pre, pre), "R(_ %s, _ map[string]%s)" % (tn, pre)])
+    # unnamed parameters of alias types named like a builtin that the generated bodies call, with a signature the call would also fit: a derived
+    # parameter name `panic` compiles and silently takes the builtin's place
+    add("shape.alias-func-named-like-builtin", ["OnPanic(Panic) int", "P2(Panic)", "P3(int, Panic) error", "Rec(Recover) any", "Pr(Print, ...any)"])
     # declarations around the interface that must not disturb its mock
     add("decl.alias-of-own-generic-inst", ["Get(k string) (T, error)", "Put(v T)"], tparams="[T any]", targs=[["int"], ["string"]],
         extra_decls=["type {NAME}IntAlias = {NAME}[int]", "type {NAME}StrDefined {NAME}[string]"])
